@@ -98,7 +98,10 @@ def Mon.step (m : Mon) : Ev → Mon
 
 def monitor (tr : List Ev) : Mon := tr.foldl Mon.step ⟨0, 0, false⟩
 
+/-- the verdict of the monitor: at most one handler in flight, no handler event by a foreign thread -/
+def Mon.ok (m : Mon) : Bool := m.peak ≤ 1 && !m.foreign
+
 /-- at most one handler in flight, all handler events by the consumer -/
-def Serial (tr : List Ev) : Bool := (monitor tr).peak ≤ 1 && !(monitor tr).foreign
+def Serial (tr : List Ev) : Bool := (monitor tr).ok
 
 end Cell2v.Loop
